@@ -12,7 +12,7 @@ RULE = ("exhaustive enumeration of {stochastic} x {delay: None,False,True} x {sa
 ASSUMPTIONS = ["first-row oracle uses the reference rule interpreter of vlib/ref.py", "a child killed by a signal counts as failing from inside"]
 RUN_OPTS = {"batch_size": 24, "timeout_per_case": 20.0}
 EXHAUSTIVE = {"quick": True, "thorough": True}
-MINIMA = {"*": {"calls": 1000, "results_checked": 500}}
+MINIMA = {"*": {"calls": 1400, "results_checked": 700}}
 SANITIZE_TIERS = ("thorough",)
 
 MODELS = {
@@ -40,6 +40,11 @@ MODELS = {
     "exhausting": {"species": ["A", "W"], "x0": {"A": 3, "W": 0}, "params": {"k": 4.0, "tau": 0.25},
                    "reactions": [{"type": "massaction", "reactants": ["A"], "products": [], "fields": {"k": "k"},
                                   "delay": {"type": "fixed", "reactants": [], "products": ["W"], "params": {"delay": "tau"}}}], "rules": []},
+    "volume_rule": {"species": ["Conc", "X", "P", "Tot"], "x0": {"X": 40, "P": 0, "Conc": 0, "Tot": 0}, "params": {"k": 0.3, "tau": 0.25},
+                    "reactions": [{"type": "massaction", "reactants": ["X"], "products": [], "fields": {"k": "k"},
+                                   "delay": {"type": "fixed", "reactants": [], "products": ["P"], "params": {"delay": "tau"}}}],
+                    "rules": [{"type": "assignment", "target": "Conc", "ast": ["/", ["sp", "X"], ["vol"]], "frequency": "repeated"},
+                              {"type": "additive", "target": "Tot", "sources": ["X", "P"], "frequency": "repeated"}]},
     "empty_start": {"species": ["A", "B"], "x0": {"A": 0, "B": 0}, "params": {"k": 1.0},
                     "reactions": [{"type": "massaction", "reactants": ["A"], "products": ["B"], "fields": {"k": "k"}}], "rules": []},
 }
@@ -48,7 +53,7 @@ VOLS = ["off", "true", "num", "obj", "dividing"]
 
 
 def generate(tier, seed):
-    models = ["delays_rules", "exhausting", "empty_start"] if tier == "quick" else list(MODELS)
+    models = ["delays_rules", "exhausting", "empty_start", "volume_rule"] if tier == "quick" else list(MODELS)
     grids = ["g1"] if tier == "quick" else list(GRIDS)
     cases = []
     for m in models:
